@@ -16,7 +16,7 @@ CHECKS = {
    text="TLC explores every interleaving of writes, reads, pumps, timer expirations and per-segment deliver/drop/duplicate choices of two "
         "Elvis TCBs within small budgets (prefix, wire, window, quiescence invariants); TLC-simulated behaviours are replayed in lockstep on "
         "two real Tcbs; seeded random schedules with real sizes (1 B - 300 kB, MTU 100-65535, ISNs around the wrap points) are recorded and "
-        "every event is validated by the property-level TLA+ spec TraceTcp (prefix at every read, convergence after a loss-free phase).",
+        "every event is validated by the property-level TLA+ spec TraceTcp (prefix at every read, convergence after a loss-free phase); a profile with a late reader fills the receive buffer inside a segment; thorough: termination as a temporal property under fairness (no cycle of protocol steps).",
    note=TCP_NOTE, technique="TLA+ model checking (TLC) + spec-to-code replay + trace validation of real Tcb executions"),
  "C03": dict(level="model_checking", ref="DESIGN.md 7 C03",
    text="Same models with closes by either/both sides in every state, simultaneous open and an old duplicate SYN: RFC 9293 edges as an action "
@@ -26,12 +26,12 @@ CHECKS = {
  "C12": dict(level="model_checking", ref="DESIGN.md 7 C12",
    text="(i) modular_cmp.rs transcribed on a ring Z_M and compared with the circular order for every a and every d < M/2 (M = 16, 32, 64, complete); "
         "the real primitives sampled on 2^32 (dense around 0, 2^31, 2^32) and validated by TraceModCmp. (ii) the TCB specification is ISN-free; every "
-        "TLC behaviour is replayed on real Tcbs under 5 ISN pairs (wrap during handshake / transfer / FIN) and the normalised event streams must be identical.",
+        "TLC behaviour is replayed on real Tcbs under 5 ISN pairs (wrap during handshake / transfer / FIN) and the normalised event streams must be identical; (iii) every random schedule of the profiles close, data, late and inject is executed again under five ISN pairs that wrap 0-100000 bytes into the connection, same comparison.",
    note=TCP_NOTE, technique="TLA+ model checking (TLC) of the comparison primitives + ISN-variant replay of TLC behaviours + trace validation"),
  "C17": dict(level="model_checking", ref="DESIGN.md 7 C17",
    text="TcpPair with forged segments (all 16 SYN/ACK/FIN/RST sets x seq around the window edges x ack around SND.UNA/NXT x windows x lengths) injected in "
         "every reachable state: window-edge invariant; real Tcbs under random forged segments (all 64 flag sets, far/near seq/ack, shrinking windows): "
-        "no panic, no data beyond the advertised edge, unacceptable segments change neither state nor deliverable data (TraceTcp).",
+        "no panic, no data beyond the advertised edge, new data inside SND.UNA+SND.WND, an in-sequence segment with an acceptable ACK sets the send window to the window it carries, unacceptable segments change neither state nor deliverable data (TraceTcp).",
    note=TCP_NOTE + " Known finding K4 (relaxed RCV.NXT-1 window) is reported as KNOWN-FINDING.",
    technique="TLA+ model checking (TLC) with an attacker action + trace validation of real Tcb executions under forged segments"),
 }
@@ -81,7 +81,7 @@ CHECKS.update({
  "C06": dict(level="model_checking", ref="DESIGN.md 7 C06",
    text="Arp.tla: resolve() with gateway substitution, cache, learning from sender fields, the bounded retry loop and frame loss, all interleavings of up to 3 concurrent "
         "resolutions (correct owner, agreement, success when an exchange survives, failure for unclaimed addresses, no hang); real Arp instances with a seeded loss plan executed by "
-        "the frame hook, every resolution validated by TraceArp.tla against the recorded claims and ARP frames.",
+        "the frame hook (random loss, and exact plans that let only the k-th request through), every resolution validated by TraceArp.tla against the recorded claims and ARP frames (failed resolutions are judged again at the end of the run).",
    note=NET_NOTE, technique="TLA+ model checking (TLC) + trace validation of real ARP executions with injected frame loss"),
 })
 
@@ -89,7 +89,7 @@ CHECKS.update({
  "C13": dict(level="model_checking", ref="DESIGN.md 7 C13",
    text="Lifecycle.tla: protocols as init/arrive/release/post processes behind a barrier, shutdown requests through the bounded broadcast channel (first request wins), the timeout "
         "task and the outer T+1 timeout, all interleavings (barrier, returned status = first request, bound, no hang); real run_internet_with_timeout runs mixing scripted "
-        "applications (slow, early/late/concurrent/bursting requests, hanging) with built-in protocols and applications under virtual time, validated by TraceLifecycle.tla.",
+        "applications (slow, early/late/concurrent/bursting requests, hanging) with built-in protocols and applications, including empty machine sets, under virtual time, validated by TraceLifecycle.tla.",
    note=NET_NOTE + " Known finding K6 (Forward opens its session before the barrier) is reported as KNOWN-FINDING.",
    technique="TLA+ model checking (TLC) + trace validation of real simulation runs under virtual time"),
 })
@@ -102,7 +102,7 @@ CHECKS.update({
    note=NET_NOTE, technique="TLA+ model checking (TLC) + trace validation of real router topologies"),
  "C20": dict(level="model_checking", ref="DESIGN.md 7 C20",
    text="Dns.tla: lookups with cache, queries from fresh ports, server replies copying identifier and name, client acceptance, any delivery order (right address, echo, cache correct, cached lookups "
-        "silent, nothing lost); a real DnsServer and real DnsClients with every frame delayed randomly, lookups concurrent and repeated, names up to 40 characters, validated by TraceDns.tla.",
+        "silent, nothing lost); a real DnsServer and real DnsClients with every frame delayed randomly, lookups concurrent and repeated, names up to 250 characters, validated by TraceDns.tla.",
    note=NET_NOTE, technique="TLA+ model checking (TLC) + trace validation of real DNS executions with delayed frames"),
 })
 
@@ -111,7 +111,7 @@ CHECKS.update({
    text="SockPipe.tla: the socket -> TcpSession -> TCB (abstract ordered pipe, C01) -> SocketSession -> Socket::recv pipeline with re-chunking, accept backlog and the stored remainder, "
         "all interleavings (stream = concatenation of writes in order, recv(n) <= n, nothing dropped, complete); the as-found variants (task per write, recv budget, queue overflow) are "
         "refuted by TLC and were reproduced on the code (F2, F3 repaired; K1 recorded). Real socket applications over the complete stack with jitter / bounded loss / duplicates on the "
-        "current_thread runtime (virtual time) and on multi_thread runtimes with 2-16 workers, every read validated by TraceSock.tla.",
+        "current_thread runtime (virtual time) and on multi_thread runtimes with 2-16 workers, byte-budget and whole-message reads mixed on one socket, writes before accept, every read validated by TraceSock.tla.",
    note=NET_NOTE + " Known finding K1 (255-slot socket queue drops stream bytes) is reported as KNOWN-FINDING.",
    technique="TLA+ model checking (TLC) + trace validation of real socket executions on both runtime flavours"),
 })
@@ -125,7 +125,7 @@ CHECKS.update({
    note=CODEC_NOTE, technique="TLA+ wire-format reference evaluated by TLC on recorded encoder/decoder samples (trace validation)"),
  "C14": dict(level="exploration", ref="DESIGN.md 7 C14",
    text="(a) every real decoder on valid, truncated, field-mutated, random and extreme byte strings: never a panic, accepted exactly when Codec.tla's acceptance predicate holds, fields as the layout says; "
-        "(b) NDL texts generated by Ndl.tla and mutated (token insertion/deletion, truncation, indentation, non-ASCII, keywords): core_parser never panics; (c) socket scenarios over the full stack with an "
+        "(b) NDL texts generated by Ndl.tla and mutated (token insertion/deletion, truncation - for the first descriptions at every length -, indentation, non-ASCII, keywords): core_parser never panics; (c) socket scenarios over the full stack with an "
         "attacker injecting frames undecodable at PCI/IPv4/UDP/TCP/ARP level: streams and datagrams unaffected, nothing crashes (TraceSock.tla).",
    note=CODEC_NOTE, technique="TLA+ acceptance predicates evaluated by TLC on recorded decoder/parser calls + trace validation of full-stack runs with injected frames"),
  "C18": dict(level="exploration", ref="DESIGN.md 7 C18",
@@ -133,7 +133,7 @@ CHECKS.update({
         "the decoders accept etherparse-built packets, and single/double bit corruptions of reference packets are rejected exactly when the one's-complement sum changes (TraceCodec.tla, Checked = TRUE).",
    note=CODEC_NOTE, technique="TLA+ RFC 1071 reference evaluated by TLC on packets recorded from the compute_checksum build (trace validation)"),
  "C19": dict(level="exploration", ref="DESIGN.md 7 C19",
-   text="Ndl.tla is generator and oracle: TLC enumerates 1024 description trees, renders each in tab / 4-space / CRLF form in TLA+, computes the structure the parser must return, five one-error mutants and the "
+   text="Ndl.tla is generator and oracle: TLC enumerates 2352 description trees (send / forward to the same or another port / capture, ping-pong pairs, auto-protocol machines, one-address ranges), renders each in tab / 4-space / CRLF form in TLA+, computes the structure the parser must return, five one-error mutants and the "
         "meaning; hv-sim feeds every text to the real core_parser (structure compared, parsed twice) and every valid description to generate_and_run_sim (normal exit, messages on the wire); TraceNdl.tla judges.",
    note=CODEC_NOTE, technique="TLA+ generator/oracle (TLC enumeration) replayed on the real parser and simulation builder"),
 })
